@@ -274,7 +274,8 @@ func DataValue(fn, v int64) any {
 	case 2:
 		return &model.LoadControlLimitDescriptionListDataType{LoadControlLimitDescriptionData: []model.LoadControlLimitDescriptionDataType{{LimitId: util.Ptr(model.LoadControlLimitIdType(v))}}}
 	case 3:
-		return &model.MeasurementListDataType{MeasurementData: []model.MeasurementDataType{{MeasurementId: util.Ptr(model.MeasurementIdType(1)), Value: &model.ScaledNumberType{Number: util.Ptr(model.NumberType(v))}}}}
+		// both key fields are given, so that a partial write of this list merges into the item by identifier
+		return &model.MeasurementListDataType{MeasurementData: []model.MeasurementDataType{{MeasurementId: util.Ptr(model.MeasurementIdType(1)), ValueType: util.Ptr(model.MeasurementValueTypeTypeValue), Value: &model.ScaledNumberType{Number: util.Ptr(model.NumberType(v))}}}}
 	case 4:
 		return &model.DeviceConfigurationKeyValueListDataType{DeviceConfigurationKeyValueData: []model.DeviceConfigurationKeyValueDataType{{KeyId: util.Ptr(model.DeviceConfigurationKeyIdType(v))}}}
 	}
